@@ -50,6 +50,20 @@ Theorem C16_ops_layout_refuted :
   exists start sds ops q, 1 <= start /\ run (build start sds) ops = Done q /\ ~ layout false q.
 Proof. exact ops_layout_refuted. Qed.
 
+(** Building is a pure function of (definition, start handle) that creates fresh objects:
+    two instances (of one class or of two), the second built from the object identities the
+    first left unused, both have the full layout at their own start handle, and no object
+    identity (service or characteristic, hence no value / descriptor / include reference of
+    the attribute databases) occurs in both.  [all_ids] lists the identities of a profile. *)
+Theorem C16_instances_independent :
+  forall (start1 start2 : N) (sds1 sds2 : list sdef),
+    1 <= start1 -> 1 <= start2 ->
+    let p1 := build start1 sds1 in
+    let p2 := build_from (p_fresh p1) start2 sds2 in
+    layout false p1 /\ layout false p2 /\ p_start p2 = start2
+    /\ (forall x, In x (all_ids (p_svcs p1)) -> ~ In x (all_ids (p_svcs p2))).
+Proof. exact instances_independent. Qed.
+
 (** What the layout means for the handles: distinct, every attribute found under the handle
     it carries, no dangling reference ... *)
 Theorem C16_layout_distinct_handles :
